@@ -1,0 +1,28 @@
+//go:build verif
+
+package random
+
+// Contracts for govc (contract-based deductive verification, see /verif/DESIGN.md).
+// Comments only; compiled only with the build tag `verif`.
+
+//@ arith mixed
+//@ property C19
+//
+// The random source is a caller-supplied function value fn(n): it must be asked for the FULL range of the
+// alphabet (so that every character can occur) and, like math/rand.Intn, panics unless n > 0.
+//@ ghost alphabetSize int
+//@ func funcval fn
+//@   trusted random source (math/rand Intn): any value in [0, n), requires n > 0
+//@   requires #positive n > 0
+//@   requires #coversalphabet n == alphabetSize
+//@   ensures 0 <= result && result < n
+//@   modifies
+//
+//@ func genNonceStr
+//@   requires alphabetSize == len(baseStr) && len(baseStr) > 0
+//@   ensures #length len(result) == ite(length < 0, 0, length)
+//@   ensures #alphabet forall i int :: { result[i] } 0 <= i && i < len(result) ==> exists t int :: 0 <= t && t < len(baseStr) && result[i] == baseStr[t]
+//@   modifies strings.Builder.blen, strings.Builder.bbytes
+//@   loop 1
+//@     invariant 0 <= i && (i <= length || length < 0) && (length < 0 ==> i == 0) && bSize == len(baseStr) && strBuilder.blen == i
+//@     invariant #alphabet forall k int :: { strBuilder.bbytes[k] } 0 <= k && k < i ==> exists t int :: 0 <= t && t < len(baseStr) && strBuilder.bbytes[k] == baseStr[t]
